@@ -367,18 +367,25 @@ def payload_faults(payload_len, thorough):
     return [('payload', n) for n in ns]
 
 
-def runt_faults(d, cmd, thorough):
+RUNT_SUBSET = {bytes.fromhex(h) for h in ('', '00', '0000ff', '0000ffff', '0000ffffff', '0000ffffff00', '0000ffffff0000', '0000ffffff01',
+                                          '0000ff0000', '0000ff05', '0000ff00ff', '0000ffffff000000', '80', '8000000000')}
+
+
+def runt_faults(d, cmd, thorough, full=True):
     """scenario independent runt / inconsistent frames, as the response and in place of the ACK
-    (quick tier: only the runts of up to 9 bytes in place of the ACK)"""
+    (quick tier: only the runts of up to 9 bytes in place of the ACK; the whole corpus once per driver and
+    command code, a subset of it for further occurrences of the same command)"""
     proto = 'acr122' if d == 'acr122' else ('rcs380' if d == 'rcs380' else 'pn53x')
     frames = CS.runt_corpus(proto, cmd)
+    if not full:
+        frames = [f for f in frames if f in RUNT_SUBSET]
     fs = [('garbled', f) for f in frames]
     if proto != 'acr122':
         fs += [('ackgarbled', f) for f in frames if thorough or len(f) <= 9]
     return fs
 
 
-def fault_set(ck, d, cmd, has_status, frame_len, thorough, payload_len=0, full_sweep=True, full_regs=True):
+def fault_set(ck, d, cmd, has_status, frame_len, thorough, payload_len=0, full_sweep=True, full_regs=True, full_runts=True):
     rng = ck.rng
     fs = payload_faults(payload_len, thorough) + regval_faults(ck, d, cmd, payload_len, thorough, full_regs)
     if d == 'udp':
@@ -426,7 +433,7 @@ def fault_set(ck, d, cmd, has_status, frame_len, thorough, payload_len=0, full_s
            ('garbled', bytes.fromhex('0000ff02fed5')), ('garbled', bytes.fromhex('0000ffffff0200fed7059e00')),
            ('garbled', bytes.fromhex('0000ffffff')), ('garbled', bytes.fromhex('0000ffffff01')),
            ('garbled', bytes.fromhex('0000ffffff0100ffd72900')), ('garbled', b'\x80' + bytes(9))]
-    fs += runt_faults(d, cmd, thorough)
+    fs += runt_faults(d, cmd, thorough, full_runts)
     return fs
 
 
@@ -627,11 +634,13 @@ def main():
                 full = (not quick) or (d, sc.kind, cmd) not in swept
                 if has_status:
                     swept.add((d, sc.kind, cmd))
-                rkey = (d, sc.kind, 'regs', plens.get(k, 0))
+                rkey = (d, 'listen' if sc.cmds is not None else 'poll', 'regs', plens.get(k, 0))
                 full_regs = (not quick) or rkey not in swept
                 if cmd == 0x06:
                     swept.add(rkey)
-                for f in fault_set(ck, d, cmd, has_status, flen, not quick, plens.get(k, 0), full, full_regs):
+                full_runts = (not quick) or (d, 'runts', cmd) not in swept
+                swept.add((d, 'runts', cmd))
+                for f in fault_set(ck, d, cmd, has_status, flen, not quick, plens.get(k, 0), full, full_regs, full_runts):
                     run.one(d, sc, k, cmd, f, baseline)
     # ---- the same below transport.TTY / transport.USB (fake serial line, fake libusb handle)
     for d in W.DRIVERS:
@@ -668,6 +677,8 @@ def main():
                 W.outcome(w, sc, t)
                 trace = list(w.sim.trace)
                 run.one(d, sc, 0, trace[0][1] if trace else 0, ('none',), None, 'api', t)
+                if quick and t in (0.0, 0.001, 0.5, 10):
+                    continue        # quick: these values run fault free only (0 / 1e-7 / 1.0 take the same branches)
                 if len(trace) > 6 and quick:
                     trace = trace[:4] + trace[-2:]
                 elif len(trace) > 24:
